@@ -1,6 +1,6 @@
 //go:build verif
 
-package rotation
+package protocol
 
 import (
 	"context"
